@@ -810,7 +810,7 @@ def rules():
         RuleSpec("C12-R8", "operator text (Operator.__str__ over every operator name of the IR)", 2, r8_operator_text),
         RuleSpec("C12-R9", "Java spelling of primitive and boxed built-in types (get_name along the MRO)", 16, r9_java_primitive_names),
         RuleSpec("C12-R10", "variance keywords: Covariant prints `out`, Contravariant `in`, Invariant nothing", 4, r10_variance),
-        RuleSpec("C12-R11", "brackets and quotes: the literals every translator method evaluates are balanced on every path", 150,
+        RuleSpec("C12-R11", "brackets and quotes: the literals every translator method (and every get_name of a type) evaluates are balanced on every path", 180,
                  r11_balance,
                  "induction over the tree: balanced children texts + balanced own literals on every decision-consistent "
                  "path = balanced translation; (), {}, [], <>, double quotes"),
@@ -823,6 +823,11 @@ def r11_balance(repo):
     for lang in LANGS:
         obs += balance.check_module(repo, "src.translators." + lang, "C12-R11", lang, Ob)
     obs += balance.check_module(repo, "src.translators.base", "C12-R11", "base", Ob)
+    # the names of types are printed by the types themselves: get_name() of the type representation and of the built-in
+    # types of the four languages (the __str__ methods are debugging output and are not judged)
+    for m in ("src.ir.types", "src.ir.builtins", "src.ir.java_types", "src.ir.kotlin_types", "src.ir.groovy_types",
+              "src.ir.scala_types"):
+        obs += balance.check_module(repo, m, "C12-R11", m.rsplit(".", 1)[-1], Ob, only_names={"get_name", "variance_to_str"})
     return obs
 
 
@@ -961,6 +966,8 @@ def variants():
                   _drop_char("GroovyTranslator.visit_func_call", ")"), {"C12-R11"}),
         V.Variant("kotlin: string constant opened but not closed", "src/translators/kotlin.py",
                   _drop_char("KotlinTranslator.visit_string_constant", '"'), {"C12-R11"}),
+        V.Variant("types: the name of a parameterized type loses its closing angle bracket", "src/ir/types.py",
+                  _drop_char("ParameterizedType.get_name", ">"), {"C12-R11"}),
         V.Variant("twin: the closing brace comes from a new helper method", "src/translators/kotlin.py",
                   _t_split_brace_into_helper, None, twin=True),
         V.Variant("kotlin: variable type printed from inferred_type, unguarded", "src/translators/kotlin.py", _v_kotlin_unguarded_inferred, {"C12-R1"}),
